@@ -188,5 +188,70 @@ class CorrectOctave(ModelStream):
     pair = "Score.correct_chord_octave / inverse_recursive_correct_octave <-> Renote.score_correct_octave"
 
 
+class ToStandard(Stream):
+    """Note.to_standard_note on chord tones and bass tones (any figure, any modifier set) against Renote.note_to_standard;
+    oracle: the written note has the pitch of the chord / bass tone"""
+    name = "to_standard_note"
+    mods = MODEL_MODS
+    checker = "check_to_standard"
+    pair = "Note.to_standard_note (c / b notes: chord.chord_notes / extension_notes, Note.o; a notes: Chord.parse) <-> Renote.note_to_standard"
+    quick, thorough = 1500, 25000
+
+    def gen(self, rng, n):
+        from harness.props.C01 import rand_chord
+        for i in range(n):
+            c = rand_chord(rng, modifiers=0.35)
+            c.pop("ton_none", None)
+            k = rng.choice("ccbbsa")
+            nt = {"kind": k, "val": rng.randrange(-9, 17) if rng.random() < 0.5 else rng.randrange(0, 5), "oct": rng.choice([0, 0, 0, 1, -1, 2, -3])}
+            if k == "a":
+                nt["val"] = rng.randrange(12)
+            if i % 5 == 0 and k != "s":
+                nt["mode"] = rng.choice(mlang.MODES)        # a per-note mode or accidental on a chord tone / absolute note is ignored by its pitch
+            if i % 7 == 0 and k != "s":
+                nt["acc"] = rng.choice(mlang.ACCS)
+            yield {"chord": c, "note": nt}
+
+    def impl(self, case):
+        def f():
+            ch = mlang.mk_chord(case["chord"])
+            n = mlang.mk_note(case["note"])
+            r = n.to_standard_note(ch)
+            return {"note": sg.read_note(r), "pitch": [int(ch.to_pitch(n)), int(ch.to_pitch(r))], "dur_amp": [F(r.duration) == F(n.duration), r.amp == n.amp]}
+        return mlang.guarded(f)
+
+    def term(self, case, r):
+        return T(mlang.coq_chord(case["chord"]), mlang.coq_pnote(case["note"]), "None" if mlang.is_exc(r) else "(Some " + mlang.coq_pnote(r["note"]) + ")")
+
+    def spec(self, case, r):
+        if mlang.is_exc(r):
+            # the chord itself may be invalid for this modifier set (C02 decides that); a valid chord must not raise
+            try:
+                mlang.mk_chord(case["chord"]).chord_extension_pitches
+            except Exception:
+                return None
+            return {"sig": "to-standard-note-raises", "msg": str(r)}
+        if r["pitch"][0] != r["pitch"][1]:
+            return {"sig": "to-standard-note-changes-pitch:" + case["note"]["kind"], "msg": f"{case['note']} in {case['chord']}: pitch {r['pitch'][0]} -> {r['note']} pitch {r['pitch'][1]}"}
+        if not all(r["dur_amp"]):
+            return {"sig": "to-standard-note-changes-duration-or-dynamics", "msg": str(r)}
+        return None
+
+    def nontrivial(self, case, r):
+        return case["note"]["kind"] in "cba"
+
+    def hist_keys(self, case, r):
+        return ["kind=" + case["note"]["kind"], "modifiers" if any(case["chord"].get(k) for k in ("repl", "adds", "rems")) else "bare", "exc" if mlang.is_exc(r) else "ok"]
+
+    def shrink(self, case):
+        c = case["chord"]
+        for key in ("repl", "adds", "rems"):
+            if c.get(key):
+                yield dict(case, chord={k: v for k, v in c.items() if k != key})
+        for key, val in (("toct", 0), ("coct", 0), ("tdeg", 0)):
+            if c.get(key) != val:
+                yield dict(case, chord=dict(c, **{key: val}))
+
+
 def streams():
-    return [Renotate(), ToAbsolute(), CorrectOctave()]
+    return [Renotate(), ToAbsolute(), CorrectOctave(), ToStandard()]
